@@ -39,6 +39,8 @@ THEOREMS = [
     "Determinism.unmaskedAttrs_enum_invariant", "Determinism.unmaskedAttrs_in_contents_order",
     "Determinism.unmaskedAttrs_no_indexError", "Determinism.documentOrder_in_registry_order",
     "Determinism.documentOrder_visible_only",
+    "Determinism.addTemplate_swap", "Determinism.addTemplateDir_listing_invariant_partial",
+    "Determinism.addTemplateDir_listing_counterexample", "Determinism.addTemplateDirSorted_listing_invariant",
     "Determinism.buildtime_function_of_inputs", "Determinism.buildtime_epoch_used", "Determinism.buildtime_epoch_zero",
     "Determinism.buildtime_option_wins", "Determinism.buildtime_clock_when_unset", "Determinism.buildtime_notInt_refused",
 ]
@@ -56,6 +58,14 @@ PARTIAL = {
     "Determinism.lower_order_invariant_partial":
         "findRootClasses (classIndex roots) and the zope `implements` list sort by x.lower(): excluded are names that differ in "
         "case only; lower_tie_counterexample; ties keep dict / list order",
+    "Determinism.addTemplateDir_listing_invariant_partial":
+        "statement: the template lookup built from a --template-dir does not depend on the order in which the directory is "
+        "listed. Full statement is false of the code (Template.fromdir walks path.iterdir() unsorted, TemplateLookup is "
+        "case-insensitive: first spelling names the output file, last added provides the bytes). Proved when the lowered names "
+        "of the directory are distinct. Excluded: names differing in case only - addTemplateDir_listing_counterexample; the "
+        "oracle builds such a project (corpus-template-case-collision) and reports the OPEN finding "
+        "listing-order:template-dir-case-collision; addTemplateDirSorted_listing_invariant is the full statement for the "
+        "proposed repair fixes/C18-template-dir-listing-sorted.diff",
     "Determinism.rerun_idempotent":
         "hypothesis wfRun: the name that becomes the root symlink (<root>.html) is not written after the link is made, and "
         "either not before it, or the link target (index.html) is rewritten afterwards and differs from it. Since /repo "
@@ -89,6 +99,8 @@ ASSUMPTIONS = [
     "built-in extensions commute - catalogued as `assumed_commutative`, exercised by the oracle (the launcher reorders "
     "that listing too and the generated sources use attrs, zope.interface and deprecate)",
     "module and package names are identifiers (urllib.parse.quote is the identity on every name the url stream sends); "
+    "TemplateLookup: the version check of HTML templates and the directory-override check are not transcribed (stream uses "
+    "templates without a version, flat directories)",
     "fixed projects cover a single root called `index`, one named like a summary page, and one hidden by --privacy",
     "sorted(package_path.iterdir()) compares pathlib paths of one directory, i.e. their names as str (code point order)",
     "the output-directory model is flat: names are paths relative to the output directory, links point to names of the "
@@ -1117,6 +1129,63 @@ def presentation_stream(ctx: Ctx, st: Streams, scratch: Path) -> None:
         shutil.rmtree(out, ignore_errors=True)
 
 
+def template_lookup_stream(ctx: Ctx, st: Streams, scratch: Path) -> None:
+    """real TemplateLookup(base).add_templatedir(custom) with the two directories listed in a chosen order
+    (pathlib.Path.iterdir answers that order for these two directories only), against `addTemplateDir`"""
+    import pathlib
+    from pydoctor.templatewriter import TemplateLookup, HtmlTemplate
+    rng = ctx.rng
+    stems = ["extra", "Extra", "EXTRA", "my", "My", "page", "Page", "other", "z"]
+    real_iterdir = pathlib.Path.iterdir
+    orders: Dict[str, List[str]] = {}
+
+    def iterdir(self: pathlib.Path) -> Any:
+        key = str(self)
+        if key in orders:
+            return iter([self / n for n in orders[key]])
+        return real_iterdir(self)
+    n = 40 if ctx.quick else 400
+    cases: List[Tuple[List[str], List[str]]] = [(["extra.css", "page.html"], ["Extra.css", "extra.css", "My.css", "my.css"]),
+                                                (["extra.css", "page.html"], ["extra.css", "Extra.css", "my.css", "My.css"])]
+    for _ in range(n):
+        def names(k: int) -> List[str]:
+            return list(dict.fromkeys(rng.choice(stems) + rng.choice([".css", ".html", ".txt", ".CSS"]) for _ in range(k)))
+        cases.append((names(rng.randint(0, 3)), names(rng.randint(1, 5))))
+    pathlib.Path.iterdir = iterdir  # type: ignore[assignment]
+    try:
+        for i, (bnames, cnames) in enumerate(cases):
+            bdir, cdir = scratch / ("tplb%d" % i), scratch / ("tplc%d" % i)
+            ids: Dict[str, int] = {}
+            toks: List[List[str]] = [[], []]
+            for which, (d, nms) in enumerate(((bdir, bnames), (cdir, cnames))):
+                d.mkdir()
+                rng.shuffle(nms)
+                orders[str(d)] = list(nms)
+                for nm in nms:
+                    html = nm.lower().endswith(".html")
+                    text = ("<div>%s %d</div>" if html else "%s %d") % (nm, which)
+                    (d / nm).write_text(text)
+                    toks[which].append("%s;%s;%s;%d" % (enc(nm), enc(nm.lower()), "h" if html else "s", ids.setdefault(text, len(ids) + 1)))
+            try:
+                lookup = TemplateLookup(bdir)
+                lookup.add_templatedir(cdir)
+                ents = []
+                for t in lookup.templates:
+                    text = t.text if isinstance(t, HtmlTemplate) else t.data.decode()      # type: ignore[attr-defined]
+                    ents.append((t.name.lower(), "%s=%s=%s=%d" % (enc(t.name.lower()), enc(t.name), "h" if isinstance(t, HtmlTemplate) else "s", ids[text])))
+                impl = " ".join(["ok"] + [e for _, e in sorted(ents, key=lambda x: [ord(c) for c in x[0]])])
+            except Exception as e:
+                impl = type(e).__name__
+            lowered = [x.lower() for x in cnames]
+            ctx.count("template-dir:" + ("case-collision" if len(set(lowered)) < len(lowered) else "distinct"))
+            st.add("TemplateLookup.add_templatedir~addTemplateDir", "determinism templates %s | %s" % (" ".join(toks[0]), " ".join(toks[1])),
+                   impl, {"base": orders[str(bdir)], "custom": orders[str(cdir)]})
+            shutil.rmtree(bdir, ignore_errors=True)
+            shutil.rmtree(cdir, ignore_errors=True)
+    finally:
+        pathlib.Path.iterdir = real_iterdir  # type: ignore[assignment]
+
+
 # ------------------------------------------------------------------ run
 
 def real_projects() -> List[Dict[str, Any]]:
@@ -1142,6 +1211,7 @@ def run(ctx: Ctx) -> None:
         site_function_stream(ctx, st)
         os_semantics_stream(ctx, st, scratch)
         presentation_stream(ctx, st, scratch)
+        template_lookup_stream(ctx, st, scratch)
         nproj = 8 if ctx.quick else 200
         # the corpus first, on every run: detection of the known shapes never depends on the seed
         run_projects(ctx, st, corpus_projects(), scratch, jobs=16)
